@@ -9,7 +9,7 @@ class Unit:
     """One (harness binary x library build) that generates and runs cases."""
     def __init__(self, name, harness, libcfg=None, cases=1000, shards=16, max_size=100, cxx="g++",
                  hflags=(), link_flags=(), libs=("-lrapidcheck",), wrapper=(), args=(), env=None,
-                 extra_objs=(), timeout=3000, weight=1.0, crash_is_violation=True, builder=None):
+                 extra_objs=(), timeout=3000, weight=1.0, crash_is_violation=True, builder=None, digest_group=None):
         self.name = name; self.harness = harness if isinstance(harness, (list, tuple)) else [harness]
         self.libcfg = libcfg; self.cases = cases; self.shards = shards; self.max_size = max_size
         self.cxx = cxx; self.hflags = list(hflags); self.link_flags = list(link_flags); self.libs = list(libs)
@@ -17,6 +17,7 @@ class Unit:
         self.extra_objs = list(extra_objs); self.timeout = timeout
         self.crash_is_violation = crash_is_violation
         self.builder = builder      # optional callable(unit, workdir) -> path of binary
+        self.digest_group = digest_group   # units of one group see identical case streams; their per-case transcript digests must agree
         self.binary = None
 
     def build(self, work):
@@ -77,6 +78,60 @@ def count_distinct(hash_files, cap=8000000):
     return len(set(a))
 
 
+def compare_digests(pid, units, work, seed, violations):
+    """Units of one digest group ran the same case streams (same seeds) in separate processes and/or against
+    different builds: the per-case transcript digests must be identical."""
+    groups = {}
+    for u in units:
+        if u.digest_group:
+            groups.setdefault(u.digest_group, []).append(u)
+    info = {}
+    for g, us in groups.items():
+        ref = us[0]; compared = 0
+        for other in us[1:]:
+            for i in range(min(ref.shards, other.shards)):
+                fa = os.path.join(work, "%s-s%d.digest" % (ref.name, i)); fb = os.path.join(work, "%s-s%d.digest" % (other.name, i))
+                try:
+                    a = open(fa, "rb").read(); b = open(fb, "rb").read()
+                except OSError:
+                    continue
+                n = min(len(a), len(b)) // 16
+                compared += n
+                for k in range(n):
+                    if a[16 * k:16 * k + 16] != b[16 * k:16 * k + 16]:
+                        if a[16 * k:16 * k + 8] != b[16 * k:16 * k + 8]:
+                            raise InfraError("case streams of %s and %s diverge (generator not deterministic?)" % (ref.name, other.name))
+                        if len(violations) >= 3:
+                            break
+                        # regenerate the k-th case of this shard
+                        dump = os.path.join(work, "dump-%s-%d-%d.prog" % (g, i, k))
+                        env = dict(os.environ, **ref.env)
+                        env["RC_PARAMS"] = "seed=%d max_success=%d max_size=%d" % (seed * 1000 + i + 1, k + 1, ref.max_size)
+                        subprocess.run(ref.cmd("gen", "--dump-index", str(k), "--dump-path", dump), env=env,
+                                       stdout=subprocess.PIPE, stderr=subprocess.STDOUT, timeout=1200)
+                        if not os.path.exists(dump):
+                            raise InfraError("could not regenerate case %d of shard %d" % (k, i))
+                        rp = save_replay(pid, open(dump).read())
+                        da = digest_of(ref, rp); db = digest_of(other, rp)
+                        if da is None or db is None or da == db:
+                            os.unlink(rp)
+                            raise InfraError("digest mismatch between %s and %s does not reproduce from the saved case" % (ref.name, other.name))
+                        violations.append((rp, "%s vs %s" % (ref.name, other.name),
+                                           "the same calls give different results in %s (digest %s) and %s (digest %s)" % (ref.name, da, other.name, db)))
+                        break
+        info[g] = dict(units=[u.name for u in us], cases_compared=compared)
+    return info
+
+
+def digest_of(unit, path):
+    r = subprocess.run(unit.cmd("replay", path), stdout=subprocess.PIPE, stderr=subprocess.STDOUT, text=True,
+                       env=dict(os.environ, **unit.env), errors="replace", timeout=600)
+    for line in r.stdout.splitlines():
+        if "digest=" in line:
+            return line.split("digest=")[1].strip()
+    return None
+
+
 def run_units(pid, units, tier, seed, level, rule, assumptions, extra_cov=None, known=None, exclude_note=None, post_cov=None):
     """Build and run all units; returns exit code.  Writes evidence."""
     t0 = time.time()
@@ -109,7 +164,8 @@ def run_units(pid, units, tier, seed, level, rule, assumptions, extra_cov=None, 
                 base = os.path.join(work, "%s-s%d" % (u.name, i))
                 env = dict(u.env)
                 env["RC_PARAMS"] = "seed=%d max_success=%d max_size=%d" % (seed * 1000 + i + 1, u.cases, u.max_size)
-                cmds.append((u.cmd("gen", "--out", base + ".json", "--fail", base + ".fail"), env))
+                extra = ["--digest", base + ".digest"] if u.digest_group else []
+                cmds.append((u.cmd("gen", "--out", base + ".json", "--fail", base + ".fail", *extra), env))
                 meta.append((u, base))
         results = skv.run_procs(cmds, timeout=max(u.timeout for u in units))
         stat_files = []; hash_files = []; per_unit = {}
@@ -146,11 +202,14 @@ def run_units(pid, units, tier, seed, level, rule, assumptions, extra_cov=None, 
                 # does not reproduce from the saved case: flaky harness, not believed
                 os.unlink(rp)
                 raise InfraError("failure of %s does not reproduce from its saved case (%d/3): %s\n%s" % (u.name, fails, msg, rout[-2000:]))
+        digest_info = compare_digests(pid, units, work, seed, violations)
         st = skv.merge_stats(stat_files)
         distinct = count_distinct(hash_files)
         cov = dict(evaluations=st["evaluations"], distinct_nontrivial=distinct, rule=rule, samples=st["samples"],
                    classes=st["classes"], units=per_unit, exhaustive=False)
         cov.update(st["extra"])
+        if digest_info:
+            cov["cross_process_and_cross_build_digest_comparisons"] = digest_info
         if extra_cov:
             cov.update(extra_cov)
         if exclude_note:
@@ -175,7 +234,7 @@ def run_units(pid, units, tier, seed, level, rule, assumptions, extra_cov=None, 
 def replay_only(pid, units, path):
     work = tempfile.mkdtemp(prefix="skv-%s-" % pid, dir=skv._mk(os.path.join(skv.BUILD, "tmp")))
     try:
-        bad = 0
+        bad = 0; digests = {}
         for u in units:
             u.build(work)
             r = subprocess.run(u.cmd("replay", path), stdout=subprocess.PIPE, stderr=subprocess.STDOUT, text=True,
@@ -185,6 +244,11 @@ def replay_only(pid, units, path):
                 continue
             if r.returncode != 0:
                 bad += 1
+            if u.digest_group and "digest=" in r.stdout:
+                dg = r.stdout.split("digest=")[1].split()[0]
+                prev = digests.setdefault(u.digest_group, dg)
+                if prev != dg:
+                    print("[%s] transcript digest differs from the first unit of group %s" % (u.name, u.digest_group)); bad += 1
         if bad:
             print("VIOLATION property=%s replay=%s" % (pid, path))
             return 1
